@@ -187,7 +187,7 @@ def gate_triggers(ctx):
                 ob.instance(o.oid + ": " + i["what"], i["detail"])
         for r in o.refutations:
             if "trigger" in r["key"]:
-                ob.refute(o.oid + ":" + r["key"], r["msg"], None)
+                ob.refute(o.oid + ":" + r["key"], r["msg"], r.get("loc"))
         for u in o.unknowns:
             ob.unknown(u)
 
